@@ -308,7 +308,8 @@ def r4(cx):
         from rules.common import event_arm_of
         from rules.c01 import gdesc
         extra = []
-        for g in guards_of(m, f, assigns[0][0], mode="alias"):
+        from vlib.model import conditions_of
+        for g in conditions_of(m, f, assigns[0][0], mode="alias"):
             if g.neutral:
                 continue
             r = g.root
